@@ -58,6 +58,26 @@ fn main() {
         Some("replay") if args.len() >= 3 => parent::replay(&args[2]),
         Some("dbg") if args.len() >= 5 => parent::dbg(&args[2], args[3].parse().unwrap_or(0), args[4].parse().unwrap_or(1)),
         Some("dump") if args.len() >= 4 => parent::dump(&args[2], &args[3]),
+        Some("seamtest") => {
+            // self-check of the interposed seams: hash keys, wall clock, pid
+            let real = std::time::SystemTime::now().duration_since(std::time::UNIX_EPOCH).unwrap().as_secs();
+            let real_pid = std::process::id();
+            let h = std::thread::spawn(|| {
+                simenv::set_thread_hash_key([7u8; 16]);
+                simenv::set_sim_clock(Some((1_234_567_890i128 * 1_000_000_000, 4242)));
+                let t = std::time::SystemTime::now().duration_since(std::time::UNIX_EPOCH).unwrap().as_secs();
+                let pid = std::process::id();
+                let mut m = std::collections::HashMap::new();
+                for i in 0..8 {
+                    m.insert(i, i);
+                }
+                let order: Vec<i32> = m.keys().cloned().collect();
+                (t, pid, order, simenv::getrandom_calls(), simenv::clock_reads())
+            });
+            let (t, pid, order, gr, cr) = h.join().unwrap();
+            println!("real time {} pid {}; simulated time {} pid {}; map order {:?}; getrandom calls {}; clock/pid reads {:?}", real, real_pid, t, pid, order, gr, cr);
+            if t == 1_234_567_890 && pid == 4242 && gr >= 1 && real > 1_600_000_000 { 0 } else { 2 }
+        }
         Some("soup") if args.len() >= 3 => {
             let p = corpus::soup(args[2].parse().unwrap_or(0));
             println!("// args: {:?}", p.args);
